@@ -628,8 +628,10 @@ fn main() {
             let bases: [u32; 6] = [1018, 4096, 16_378, 16_384, 32_762, 131_066];
             for ci in 0..n {
                 rep.cases += 1;
-                let base = *rng.pick(&bases);
-                let max = (base as i64 + rng.range(-2, 2)).max(1018) as u32;
+                // quick tier: fewer distinct maxima (one trace file = one TLC run per maximum)
+                let quickmax = args.contains_key("quickmax");
+                let base = if quickmax { *rng.pick(&bases[..4]) } else { *rng.pick(&bases) };
+                let max = (base as i64 + if quickmax { rng.range(-1, 1) } else { rng.range(-2, 2) }).max(1018) as u32;
                 let cap = (max - 6) as usize;
                 let npdu = rng.range(0, 4) as usize;
                 // payload size near multiples of the capacity
